@@ -1,9 +1,178 @@
-(* Properties_C18.v — EBPPS (work in progress: being filled in) *)
-From Coq Require Import ZArith List Bool QArith Qround.
-From DS Require Import RunnerLib EbppsDefs EbppsProofs.
+(* Properties_C18.v — EBPPS: sample size and bookkeeping are exact.
+   Only statements, closed by [exact]; proofs live in Ebpps{Proofs,SketchProofs,HistProofs,EqualProofs,Main}.v.
+
+   All theorems are about the exact-arithmetic (Q) instance of the executable model coq/EbppsDefs.v (the same Gallina text
+   whose binary64 instance is extracted and replayed bit for bit against ebpps_sketch<int64_t>), and hold
+     - for EVERY history [h]: any tree of  HNew k | HUpd h item weight | HMerge h1 h2  (h_wf: every k >= 1; weights are
+       arbitrary rationals: negative ones are refused, zero ones ignored, exactly as the code does),
+     - for EVERY stream [s] of random choices (unit draws in the open interval (0,1) -- [cs_ok] -- and arbitrary indices),
+       threaded through all operations of the history.
+   L0 facts of a history: h_n (accepted updates), h_W (their total weight), h_wmax (their maximum weight), h_items,
+   h_k (get_k as coded: an empty operand's k is ignored by merge), h_kk (the k that governs the sample size: equal to h_k
+   after any accepted update and after any merge of two non-empty sketches -- C18_kk_*; see Regression_ebpps.v for the
+   registered finding where they differ). *)
+From Coq Require Import ZArith List Bool QArith Qround Lia Lqa.
+From DS Require Import RunnerLib EbppsDefs EbppsProofs EbppsSketchProofs EbppsHistProofs EbppsEqualProofs EbppsMain.
 Import ListNotations.
+Local Open Scope Q_scope.
 
-Theorem C18_min_is_min : forall a b, is_min (nmin QOps a b) a b.
-Proof. exact nmin_is_min. Qed.
+Section AnyItems.
+  Variable Item : Type.
+  Notation run h s := (fst (eval Item h s)).
+  Notation rest h s := (snd (eval Item h s)).
 
-Print Assumptions C18_min_is_min.
+  (* n is exact *)
+  Theorem C18_n_exact : forall h s, h_wf Item h -> cs_ok s -> sk_n (run h s) = h_n Item h.
+  Proof. exact (main_n Item). Qed.
+
+  (* the cumulative weight is exact *)
+  Theorem C18_cum_weight_exact : forall h s, h_wf Item h -> cs_ok s -> sk_cw (run h s) == h_W Item h.
+  Proof. exact (main_W Item). Qed.
+
+  (* the maximum weight is exact (with fixes/18_ebpps_merge_wt_max.patch; refuted for the old code in Regression_ebpps.v) *)
+  Theorem C18_max_weight_exact : forall h s, h_wf Item h -> cs_ok s -> sk_wmax (run h s) == h_wmax Item h.
+  Proof. exact (main_wmax Item). Qed.
+
+  Theorem C18_k : forall h s, h_wf Item h -> cs_ok s -> sk_k (run h s) = h_k Item h.
+  Proof. exact (main_k Item). Qed.
+
+  (* c = rho * W *)
+  Theorem C18_c_is_rho_W : forall h s, h_wf Item h -> cs_ok s ->
+    let sk := run h s in sc (sk_smp sk) == sk_rho sk * sk_cw sk.
+  Proof. exact (main_c_rho Item). Qed.
+
+  (* c = min(k, W / w_max) *)
+  Theorem C18_c_closed_form : forall h s, h_wf Item h -> cs_ok s -> 0 < h_W Item h ->
+    sc (sk_smp (run h s)) == qminb (inject_Z (h_kk Item h)) (h_W Item h / h_wmax Item h).
+  Proof. exact (main_c Item). Qed.
+
+  Theorem C18_kk_after_update : forall (h : hist Item) it w, accepted w = true ->
+    h_kk Item (HUpd Item h it w) = h_k Item (HUpd Item h it w).
+  Proof. exact (kk_after_update Item). Qed.
+
+  Theorem C18_kk_after_merge : forall h1 h2 : hist Item, 0 < h_W Item h1 -> 0 < h_W Item h2 ->
+    h_kk Item (HMerge Item h1 h2) = h_k Item (HMerge Item h1 h2) /\
+    h_k Item (HMerge Item h1 h2) = Z.min (h_k Item h1) (h_k Item h2).
+  Proof. exact (kk_after_merge Item). Qed.
+
+  (* a plain weighted stream into a fresh sketch: c = min(k, W / w_max) after every prefix *)
+  Theorem C18_stream_c_closed_form : forall k ups s, (1 <= k)%Z -> cs_ok s -> 0 < h_W Item (hist_of Item k ups) ->
+    sc (sk_smp (fst (run_updates QOps Item (sketch_empty QOps Item k) ups s))) ==
+    qminb (inject_Z k) (h_W Item (hist_of Item k ups) / h_wmax Item (hist_of Item k ups)).
+  Proof. exact (main_stream_c Item). Qed.
+
+  (* floor(c) full items; a partial item iff c is not an integer *)
+  Theorem C18_shape : forall h s, h_wf Item h -> cs_ok s ->
+    let sm := sk_smp (run h s) in
+    length (sdata sm) = Z.to_nat (Qfloor (sc sm)) /\ (spart sm = None <-> sc sm == inject_Z (Qfloor (sc sm))).
+  Proof. exact (main_shape Item). Qed.
+
+  (* everything held comes from the input *)
+  Theorem C18_items_from_input : forall h s, h_wf Item h -> cs_ok s ->
+    let sm := sk_smp (run h s) in
+    Forall (fun x => In x (h_items Item h)) (sdata sm) /\ (forall p, spart sm = Some p -> In p (h_items Item h)).
+  Proof. exact (main_stored_from_input Item). Qed.
+
+  (* every returned sample has floor(c) or ceil(c) items, all taken from the input (whatever the draw) *)
+  Theorem C18_result : forall h s, h_wf Item h -> cs_ok s ->
+    let sk := run h s in
+    let res := fst (get_result QOps Item (sk_smp sk) (rest h s)) in
+    floor_or_ceil (sc (sk_smp sk)) (length res) /\ Forall (fun x => In x (h_items Item h)) res.
+  Proof. exact (main_result Item). Qed.
+
+  Theorem C18_result_is_full_items_plus_maybe_partial : forall h s, h_wf Item h -> cs_ok s ->
+    let sm := sk_smp (run h s) in
+    let res := fst (get_result QOps Item sm (rest h s)) in
+    res = sdata sm \/ exists p, spart sm = Some p /\ res = sdata sm ++ [p].
+  Proof. exact (main_result_exact Item). Qed.
+
+  (* the same for begin()/end() iteration *)
+  Theorem C18_iteration : forall h s, h_wf Item h -> cs_ok s ->
+    let sk := run h s in
+    let res := fst (iterate QOps Item (sk_smp sk) (rest h s)) in
+    floor_or_ceil (sc (sk_smp sk)) (length res) /\ Forall (fun x => In x (h_items Item h)) res.
+  Proof. exact (main_iterate Item). Qed.
+
+  (* equal weights and n <= k: every item is kept as a full item (in order), c = n, nothing random happens,
+     and get_result returns exactly the input for every draw *)
+  Theorem C18_equal_weights_keep_all : forall k w0 ups (s : cs QOps),
+    (1 <= k)%Z -> 0 < w0 ->
+    Forall (fun u => accepted (snd u) = true -> snd u == w0) ups ->
+    (Z.of_nat (length (acc_items Item ups)) <= k)%Z ->
+    exists sk, run_updates QOps Item (sketch_empty QOps Item k) ups s = (sk, s) /\
+      sdata (sk_smp sk) = acc_items Item ups /\ spart (sk_smp sk) = None /\
+      sc (sk_smp sk) == inject_Z (Z.of_nat (length (acc_items Item ups))) /\
+      sk_n sk = Z.of_nat (length (acc_items Item ups)) /\
+      forall s1, fst (get_result QOps Item (sk_smp sk) s1) = acc_items Item ups.
+  Proof. exact (equal_weights_keep_all Item). Qed.
+
+  (* merge: n and W add; k is the smaller one unless the argument is empty (then *this is unchanged);
+     the merged sample has c = min(min k, (W1 + W2) / max w_max) when both sides are non-empty *)
+  Theorem C18_merge : forall h1 h2 s, h_wf Item h1 -> h_wf Item h2 -> cs_ok s ->
+    let a := run h1 s in
+    let b := fst (eval Item h2 (rest h1 s)) in
+    let r := run (HMerge Item h1 h2) s in
+    sk_n r = (sk_n a + sk_n b)%Z /\ sk_cw r == sk_cw a + sk_cw b /\
+    (0 < sk_cw b -> sk_k r = Z.min (sk_k a) (sk_k b)) /\
+    (sk_cw b == 0 -> r = a) /\
+    (0 < sk_cw a -> 0 < sk_cw b ->
+       sc (sk_smp r) == qminb (inject_Z (Z.min (sk_k a) (sk_k b))) ((sk_cw a + sk_cw b) / qmaxb (sk_wmax a) (sk_wmax b))).
+  Proof. exact (main_merge Item). Qed.
+
+  (* serialize then deserialize gives back the same sample (floor(c) items + partial iff frac(c) > 0 is what the reader expects) *)
+  Theorem C18_roundtrip : forall h s, h_wf Item h -> cs_ok s ->
+    let sm := sk_smp (run h s) in reread QOps Item sm = Some sm.
+  Proof. exact (main_roundtrip Item). Qed.
+End AnyItems.
+
+(* ---- non-vacuity: a concrete history with updates, a refused and an ignored weight, and a merge ---- *)
+Definition ex_draws : list (Q * nat) :=
+  [(1#2, 0%nat); (1#3, 1%nat); (2#3, 0%nat); (1#5, 2%nat); (4#5, 1%nat); (1#7, 0%nat); (3#7, 3%nat); (5#7, 1%nat)].
+Definition ex_cs : cs QOps := Build_cs QOps ex_draws false false false 0.
+Definition ex_h : hist Z :=
+  HMerge Z (HUpd Z (HUpd Z (HUpd Z (HUpd Z (HNew Z 3) 1%Z 2) 2%Z 3) 9%Z (-1)) 8%Z 0)
+           (HUpd Z (HNew Z 5) 7%Z (1#2)).
+
+Lemma ex_cs_ok : cs_ok ex_cs.
+Proof. apply cs_ok_init. unfold ex_draws. repeat (constructor; [split; reflexivity|]). constructor. Qed.
+
+Example C18_nonvacuous :
+  h_wf Z ex_h /\ cs_ok ex_cs /\ 0 < h_W Z ex_h /\
+  h_n Z ex_h = 3%Z /\ Qeq_bool (h_W Z ex_h) (11#2) = true /\ h_k Z ex_h = 3%Z /\ h_kk Z ex_h = 3%Z /\
+  let sk := fst (eval Z ex_h ex_cs) in
+  sk_n sk = 3%Z /\ Qeq_bool (sk_cw sk) (11#2) = true /\ Qeq_bool (sc (sk_smp sk)) (11#6) = true /\
+  length (sdata (sk_smp sk)) = 1%nat /\ (exists p, spart (sk_smp sk) = Some p).
+Proof.
+  split; [cbn; lia|]. split; [exact ex_cs_ok|]. split; [vm_compute; reflexivity|].
+  vm_compute. repeat split. eexists; reflexivity.
+Qed.
+
+Example C18_nonvacuous_equal :
+  exists sk, run_updates QOps Z (sketch_empty QOps Z 4) [(5%Z, 7#3); (6%Z, 0); (7%Z, 7#3); (8%Z, 14#6)] ex_cs = (sk, ex_cs) /\
+             sdata (sk_smp sk) = [5%Z; 7%Z; 8%Z].
+Proof.
+  destruct (C18_equal_weights_keep_all Z 4 (7#3) [(5%Z, 7#3); (6%Z, 0); (7%Z, 7#3); (8%Z, 14#6)] ex_cs) as (sk & E & D & _).
+  - lia.
+  - reflexivity.
+  - repeat constructor; intro; reflexivity.
+  - cbn. lia.
+  - exists sk. split; [exact E|exact D].
+Qed.
+
+Print Assumptions C18_n_exact.
+Print Assumptions C18_cum_weight_exact.
+Print Assumptions C18_max_weight_exact.
+Print Assumptions C18_k.
+Print Assumptions C18_c_is_rho_W.
+Print Assumptions C18_c_closed_form.
+Print Assumptions C18_kk_after_update.
+Print Assumptions C18_kk_after_merge.
+Print Assumptions C18_stream_c_closed_form.
+Print Assumptions C18_shape.
+Print Assumptions C18_items_from_input.
+Print Assumptions C18_result.
+Print Assumptions C18_result_is_full_items_plus_maybe_partial.
+Print Assumptions C18_iteration.
+Print Assumptions C18_equal_weights_keep_all.
+Print Assumptions C18_merge.
+Print Assumptions C18_roundtrip.
